@@ -28,6 +28,11 @@ Theorem C14_guard_changes_nothing_else : forall m listed ex pt x fuel fuel' r,
 Proof. exact build_guarded_same. Qed.
 Print Assumptions C14_guard_changes_nothing_else.
 
+(* no panic is left in the builder: calls to undefined apps / endpoints are recorded like any other *)
+Theorem C14_never_panics : forall m listed ex pt g x fuel, build m listed ex pt g x fuel <> Panic.
+Proof. exact build_never_panics. Qed.
+Print Assumptions C14_never_panics.
+
 (* ---- soundness ---- *)
 (* every dependency is backed by a call statement of the source endpoint (any nesting depth) and touches no
    excluded app *)
